@@ -1114,6 +1114,17 @@ def _neg(k):
 
 # ------------------------------------------------------------------------------------------------
 # attribution helpers: operator skeleton with leaves erased to type / value classes
+def leaf_kind(x):
+    if x.op == 'const': return 'param' if x.t in (DEC, DATE, TD) else 'const'    # Decimal(..)/date(..)/timedelta(..) are calls: evaluated outside, bound as parameters
+    if x.op == 'param': return 'param'
+    return 'col'
+
+ARITH = ('add', 'sub', 'mul', 'truediv', 'floordiv', 'mod', 'pow', 'neg', 'abs')
+def operand_kind(c):
+    if is_ms(c.t): return 'attr' if is_lifted(c) else 'gen'
+    if is_leaf(c): return leaf_kind(c)
+    if is_external(c): return 'param'       # Pony evaluates column-free subtrees in Python and binds the value
+    return 'expr'
 
 def is_leaf(x):
     return x.op in ('const', 'param', 'var', 'ent') or (x.op == 'attr' and x.a[0].op == 'var')
@@ -1389,7 +1400,7 @@ def op_skeleton(x):
     p = PRODS[x.op]
     parts = []
     for c in x.a:
-        if p.kindsens or c.t == DEC or is_ms(c.t): parts.append('%s:%s' % (operand_kind(c), c.t))
+        if p.kindsens or (c.t == DEC and x.op not in ARITH) or is_ms(c.t): parts.append('%s:%s' % (operand_kind(c), c.t))
         else: parts.append(c.t)
     if callable(p.fmt):
         if x.op in ('and', 'or'): return (' %s ' % x.op).join(parts)
@@ -1400,7 +1411,8 @@ def op_skeleton(x):
 def kind_skeleton(x):
     """operator skeleton with leaves erased to their kind only (for front-end specific failures:
     the decompiler sees constants, names and attribute chains, not types)"""
-
+    if is_leaf(x): return 'const' if x.op == 'const' else leaf_kind(x)
+    if x.op == 'attr': return kind_skeleton(x.a[0]) + '.attr'
     if x.op == 'hybrid': return 'hybrid(%s)' % ', '.join(kind_skeleton(c) for c in x.a)
     if x.op == 'gen': return '(gen)'
     p = PRODS[x.op]
